@@ -319,14 +319,55 @@ class NoneValue(Value):
 
 
 class MultiByteValue(Value):
+    """
+    A comma separated list of values that are each stored in the same number of
+    bytes. An element may be a number, or a symbol or two-term expression that is
+    resolved once the symbol table (and, for labels, the addresses) are known.
+    """
+    BYTES_PER_ELEMENT = 1
+
     def __init__(self, value):
         super().__init__(value)
         self.hex_array = []
+        self.elements = []
         self.type = ValueType.MULTI_BYTE
         if "," not in value:
             raise ValueTypeError("multi-byte declarations must have a comma in them")
-        values = value.split(",")
-        self.hex_array = [NumericValue(x).hex_in_bytes(1) for x in values if x != ""]
+        for element in [x for x in value.split(",") if x != ""]:
+            if element[0] in ["#", "<", ">"]:
+                raise ValueTypeError("[{}] is not a valid list element".format(element))
+            self.elements.append(Value.create_from_str(element, default_mode_extended=False))
+        self.render()
+
+    def render(self):
+        """
+        Renders the elements that are numbers, checking that each fits the element
+        width. Elements that still wait for a symbol or an address are zero filled.
+        """
+        self.hex_array = [
+            element.hex_in_bytes(self.BYTES_PER_ELEMENT) if element.is_numeric() else "00" * self.BYTES_PER_ELEMENT
+            for element in self.elements
+        ]
+
+    def resolve(self, symbol_table):
+        self.elements = [
+            element.resolve(symbol_table) if element.is_symbol() or element.is_expression() else element
+            for element in self.elements
+        ]
+        self.render()
+        return self
+
+    def resolve_addresses(self, statements):
+        """
+        Replaces the elements that refer to labels with their values, once the
+        addresses of all of the statements are known.
+        """
+        for index, element in enumerate(self.elements):
+            if element.is_address():
+                self.elements[index] = NumericValue(statements[element.int].code_pkg.address.int)
+            elif element.is_address_expression():
+                self.elements[index] = element.calculate_address_offset(statements)
+        self.render()
 
     def hex(self, size=0):
         return "".join(self.hex_array)
@@ -341,27 +382,14 @@ class MultiByteValue(Value):
         return False
 
 
-class MultiWordValue(Value):
+class MultiWordValue(MultiByteValue):
+    BYTES_PER_ELEMENT = 2
+
     def __init__(self, value):
-        super().__init__(value)
-        self.hex_array = []
-        self.type = ValueType.MULTI_WORD
         if "," not in value:
             raise ValueTypeError("multi-word declarations must have a comma in them")
-        values = value.split(",")
-        self.hex_array = [NumericValue(x).hex_in_bytes(2) for x in values if x != ""]
-
-    def hex(self, size=0):
-        return "".join(self.hex_array)
-
-    def hex_len(self):
-        return len(self.hex())
-
-    def is_8_bit(self):
-        return False
-
-    def is_16_bit(self):
-        return False
+        super().__init__(value)
+        self.type = ValueType.MULTI_WORD
 
 
 class StringValue(Value):
